@@ -22,7 +22,8 @@ func init() {
 			"R3 post-regexp checks (disjunctive path facts): every successful return of ParseRelative holds (tag empty or accepted by the function IsValidTag uses) and (digest empty or validated) and (repository length checked), and the tag check enforces the 128-byte limit; " +
 			"R4 the HTTP router calls exactly these predicates (decided under C06.R2) and the deprecated wrappers in the root package delegate to them unchanged. " +
 			"R3b the tag check returns nil only for a non-empty tag; R5 the request classifier accepts a repository/tag/digest only if it passed the ociref predicate (shared with C06.R2). " +
-			"R6 the request router applies no lexical path normaliser; R7 the validity predicates and the router write no package-level state.",
+			"R6 the request router applies no lexical path normaliser; R7 the validity predicates and the router write no package-level state. " +
+			"R8 (shared with C03.R13) the router splits at the last occurrence of a path keyword; R9 no capture group of the reference pattern can match the empty string (minimum match length over the parsed regexp), because the parser reads a non-empty capture as \"this part was given\".",
 		NotDecided: "the print-then-parse identity on values (String followed by Parse yields the same parts) is not decided.",
 		Technique:  "static analysis: panic-site inventory with bounds prover, regexp/syntax tree comparison of constant patterns, disjunctive path facts",
 	})
@@ -42,6 +43,8 @@ func runC17(c *core.Ctx) {
 	c06ValidatedFields(c, "C17.R5")
 	routerDoesNotNormalisePaths(c, "C17.R6")
 	noPackageState(c, "C17.R7", "a validity predicate / the request router", append(c.P.ModuleFunctions("ociref"), pkgFuncs(c, "internal/ocirequest")...))
+	routerSplitsAtTheLastKeyword(c, "C17.R8")
+	captureGroupsCannotBeEmpty(c, "C17.R9")
 }
 
 // patternUsedBy: the constant pattern of the regexp on which fn calls method.
